@@ -34,7 +34,8 @@ Lemma exim_ok_contents : forall m ids cs src t t', exim m ids cs src t = (t', Ok
   (forall d, exported ids src d -> is_stored (d_id d) t = false /\ content_of (d_id d) src <> None /\
              content_of (d_id d) t' = content_of (d_id d) src).
 Proof.
-  intros m ids cs src t t'. unfold exim. destruct (export ids cs src) as [b|e] eqn:Ex; [|intros H; inversion H].
+  intros m ids cs src t t'. unfold exim, exim_v. destruct (export ids cs src) as [b|e] eqn:Ex; [|intros H; inversion H].
+  fold (import_ m b t).
   intros H. destruct (import_ok _ _ _ _ H) as (_ & Hst & Hns).
   pose proof (export_dsets _ _ _ _ Ex) as Hds.
   apply export_shape in Ex. destruct Ex as (order & _ & Hc & _ & _ & Eb).
